@@ -29,7 +29,7 @@ import (
 func init() {
 	core.RegisterMeta("C25", core.Meta{
 		Rule: "end-to-end: every negotiable (version, suite) cell of the zcrypto server table + TLS 1.3 suites, pairs zcrypto<->zcrypto and zcrypto<->Go crypto/tls, " +
-			"both directions at once, write-size sequences x read segmentation x TLS 1.3 mid-stream key updates (driver hook) x post-handshake record faults (flip per byte class, set header fields, truncate, drop, dup, swap, replay, insert, garbage, close); " +
+			"both directions at once, write-size sequences x read segmentation x end-of-stream delivery (last bytes together with io.EOF, with and without close_notify) x TLS 1.3 mid-stream key updates (driver hook) x post-handshake record faults (flip per byte class, set header fields, truncate, drop, dup, swap, replay, insert, garbage, close); " +
 			"non-trivial = handshake reached the cell's version and suite and (clean plan: both streams delivered completely and equal | fault plan: the faulted record was reached on the wire); distinct by (pair, cell, plan). " +
 			"record level (hook zz_verif_record.go): every implemented suite x version, zcrypto encrypt/decrypt against an independent reference in both directions, " +
 			"single-bit flips (exhaustive for short records), sequence number +-1, CBC padding matrix, extractPadding against a reference; non-trivial = (cell, payload size, test class)",
@@ -96,20 +96,22 @@ type faultSpec struct {
 }
 
 type e2ePlan struct {
-	Pair      string // ZZ | ZG | GZ
-	Cell      string
-	Idx       int
-	DynOff    bool
-	BeastOff  bool
-	Family    string // "" | many (>= 600 one-record writes per direction, clean) | pair (same, plus a fault that involves two records a fixed distance apart)
-	KeyUpdate int    // TLS 1.3, zcrypto writers: 0 none, 1 KeyUpdate(update_not_requested) between writes, 2 also update_requested (the peer's reader answers)
-	Capacity  int
-	WritesAB  []int
-	WritesBA  []int
-	SegAB     segSpec // how the server's transport reads are segmented
-	SegBA     segSpec
-	ReadSeed  uint64
-	Faults    []faultSpec
+	Pair          string // ZZ | ZG | GZ
+	Cell          string
+	Idx           int
+	DynOff        bool
+	BeastOff      bool
+	EOFHold       [2]int // per direction (client->server, server->client): > 0 = the transport hands the reader its last bytes together with io.EOF (n > 0, io.EOF), keeping that many bytes back until the writer has closed
+	NoCloseNotify bool   // the writers end with a transport close only (no close_notify): the last segment is the tail of a data record
+	Family        string // "" | many (>= 600 one-record writes per direction, clean) | pair (same, plus a fault that involves two records a fixed distance apart)
+	KeyUpdate     int    // TLS 1.3, zcrypto writers: 0 none, 1 KeyUpdate(update_not_requested) between writes, 2 also update_requested (the peer's reader answers)
+	Capacity      int
+	WritesAB      []int
+	WritesBA      []int
+	SegAB         segSpec // how the server's transport reads are segmented
+	SegBA         segSpec
+	ReadSeed      uint64
+	Faults        []faultSpec
 }
 
 func (p *e2ePlan) id() string { return fmt.Sprintf("e2e/%s/%s/%d", p.Pair, p.Cell, p.Idx) }
@@ -358,6 +360,24 @@ func genPlan(seed int64, pair string, cl cell, idx int, clean bool) *e2ePlan {
 		p.KeyUpdate = rng.IntN(3)
 		if p.KeyUpdate == 2 {
 			p.Capacity = 0 // the answer is written from inside Read: needs a pipe that never blocks the peer's writer for good
+		}
+	}
+	// transport dimension "EOF delivery" (own random stream, so the other draws of a plan do not depend on it)
+	r2 := rngFor(seed, fmt.Sprintf("C25eof/%s/%s/%d", pair, cl, idx))
+	if r2.IntN(5) < 2 {
+		for d := 0; d < 2; d++ {
+			switch r2.IntN(4) {
+			case 0:
+				p.EOFHold[d] = 1 + r2.IntN(8) // the last segment is the tail of a record
+			case 1:
+				p.EOFHold[d] = 20 + r2.IntN(60) // about one small record or the close_notify
+			case 2:
+				p.EOFHold[d] = 300 + r2.IntN(3000) // whole record(s) and the close_notify
+			}
+		}
+		p.NoCloseNotify = r2.IntN(3) == 0
+		if p.Capacity > 0 && (p.EOFHold[0]*2 > p.Capacity || p.EOFHold[1]*2 > p.Capacity) {
+			p.Capacity = 0 // the held tail must fit the pipe
 		}
 	}
 	return p
@@ -618,6 +638,9 @@ func runE2E(c *core.Ctx, cl cell, p *e2ePlan) {
 
 	// install the faults relative to the first post-handshake record of each direction
 	baseAB, baseBA := tAB.count(), tBA.count()
+	// from here on no reply depends on the last bytes of a direction: the server's transport reads client->server
+	r.B.SetEOFWithData(p.EOFHold[0])
+	r.A.SetEOFWithData(p.EOFHold[1])
 	for _, f := range p.Faults {
 		t, base := tAB, baseAB
 		if f.Dir == "BA" {
@@ -684,7 +707,7 @@ func runE2E(c *core.Ctx, cl cell, p *e2ePlan) {
 				res.written = off
 				res.writeEnds = append(res.writeEnds, off)
 			}
-			if res.writeErr == nil {
+			if res.writeErr == nil && !p.NoCloseNotify {
 				res.closeErr = ep.CloseWrite()
 			}
 		})
